@@ -66,13 +66,24 @@ def kind_of(v):
 
 
 def show(v):
-    """Stable printable rendering of a (decoded) value, for reports and digests."""
+    """Stable printable rendering of a (decoded) value, for reports and digests.  Large sympy expressions
+    are rendered by their structural hash: printing walks the tree form, which can be exponentially larger
+    than the shared (DAG) form kingdon's unsimplified symbolic results have."""
     if isinstance(v, np.ndarray):
         return f'nd{v.tolist()!r}'
     if isinstance(v, (np.generic,)):
         return repr(v.item())
     if isinstance(v, sympy.Basic):
-        return f'sym({sympy.sstr(v)})'
+        try:
+            small = v.is_Atom or sum(1 for _ in zip(sympy.preorder_traversal(v), range(60))) < 60
+        except Exception:
+            small = False
+        if small:
+            return f'sym({sympy.sstr(v)})'
+        # structural hash (cached per node by sympy, so cheap even when the expression is a huge DAG whose
+        # tree form - what any printer walks - is exponentially large); stable across processes under the
+        # fixed PYTHONHASHSEED the checks run with
+        return f'sym(<large expression, structural hash {hash(v) & 0xffffffffffff:012x}>)'
     if isinstance(v, (list, tuple)):
         return '[' + ', '.join(show(x) for x in v) + ']'
     return repr(v)
@@ -88,8 +99,10 @@ def snap_values(values):
     for v in values:
         if isinstance(v, np.ndarray):
             out.append(('nd', v.dtype.str, v.shape, v.tobytes()))
+        elif isinstance(v, sympy.Basic):
+            out.append(('s', hash(v)))        # structural hash, cached by sympy; never leaves this process
         else:
-            out.append(('v', type(v).__name__, show(v)))
+            out.append(('v', type(v).__name__, repr(v)))
     return (type(values).__name__, tuple(out))
 
 
